@@ -8,7 +8,7 @@
     compare.go.  Columns are required or optional (any max definition level);
     a repeated column (Sort/Repeated.v) and the SortingWriter (Sort/Writer.v)
     have their own sections below. *)
-From Coq Require Import List ZArith NArith Bool Arith Lia Permutation.
+From Coq Require Import List ZArith NArith Bool Arith Lia Permutation Sorting.Sorted.
 From PQ Require Import Sort.Model Sort.ListLemmas Sort.ColProofs Sort.PageProofs
      Sort.TypedProofs Sort.CmpProofs Sort.BufProofs Sort.OrderProofs Sort.Instances
      Sort.Repeated Sort.RepeatedProofs.
@@ -534,3 +534,195 @@ Proof.
   - unfold pin2_ops, op_ok, wrow_ok, wv_col_ok. simpl. repeat constructor; simpl; try discriminate.
   - vm_compute. split; [reflexivity|]. split; [discriminate|]. split; reflexivity.
 Qed.
+
+(** * The sorting writer (sorting.go)
+
+    Model: Sort/Writer.v.  A history is a list of Write batch | Flush | Close |
+    Reset; [sw_run] gives the rows of every file closed, [sw_written] the rows
+    written to each of them (Close ends a file, Reset abandons what was written
+    since).  [maxrows] is NewSortingWriter's sortRowCount.  The two contracts:
+
+      sort_contract A cmp sortf  :=  forall l, Permutation (sortf l) l /\
+                                     StronglySorted (fun a b => cmp a b <= 0) (sortf l)
+        -- sort.Sort on the RowBuffer: C10_writer_sort_contract derives it from
+           the exchange-level contract used for the buffers above;
+      merge_contract A cmp merge :=  forall st, Forall sorted st ->
+                                     exists st', sched cmp st (merge st) st' /\ all_empty st'
+        -- the rows MergeRowGroups delivers are a complete run of the abstract
+           merge scheduler of C09: C10_writer_merge_contract (C09_mergeK_refines +
+           C09_mergeK_terminates). *)
+Section C10_writer.
+  Variable A : Type.
+  Variable cmp : A -> A -> Z.
+  Hypothesis cmp_opp : forall a b, (cmp a b < 0 <-> cmp b a > 0)%Z.
+  Hypothesis cmp_trans : forall a b d, (cmp a b <= 0 -> cmp b d <= 0 -> cmp a d <= 0)%Z.
+
+  (** Every file closed holds a sorted permutation of all the rows written to
+      it -- for every size of the sort runs, every batching of the writes and
+      every placement of Flush, Close and Reset. *)
+  Theorem C10_sorting_writer_sorted_permutation :
+    forall (sortf : list A -> list A) (merge : list (list (Merge.Model.row A)) -> list (Merge.Model.row A))
+           (maxrows : nat) (keep_last : bool) (ops : list (swop A)),
+    1 <= maxrows -> sort_contract A cmp sortf -> merge_contract A cmp merge ->
+    Forall2 (fun out w => StronglySorted (fun a b => (cmp a b <= 0)%Z) out /\ Permutation out w)
+            (sw_run A cmp sortf merge maxrows false keep_last ops) (sw_written A [] ops).
+  Proof.
+    intros sortf merge maxrows keep_last ops Hm Hs Hg.
+    exact (sorting_writer_sorted_permutation A cmp cmp_opp cmp_trans sortf merge maxrows Hm Hs Hg keep_last ops).
+  Qed.
+
+  (** Stability, as the code has it: sort.Sort is not stable, so rows of equal
+      keys inside a run come in any order; the merge keeps every run's order. *)
+  Theorem C10_sorting_writer_runs_keep_order :
+    forall sortf merge (maxrows : nat) (keep_last : bool) (ops : list (swop A)),
+    1 <= maxrows -> sort_contract A cmp sortf -> merge_contract A cmp merge ->
+    let s1 := sw_flush A cmp sortf false keep_last
+                (fst (sw_exec A cmp sortf merge maxrows false keep_last ops)) in
+    let m := merge (sw_runs A s1) in
+    Merge.AbstractProofs.sorted A cmp m /\ Permutation (concat (sw_runs A s1)) m /\
+    forall i, Merge.AbstractProofs.of_input A i m = nth i (sw_runs A s1) [].
+  Proof.
+    intros sortf merge maxrows keep_last ops Hm Hs Hg.
+    exact (sorting_writer_runs_keep_order A cmp cmp_opp cmp_trans sortf merge maxrows Hm Hs Hg keep_last ops).
+  Qed.
+
+  (** With DropDuplicatedRows (and the code as it is: the dedupe state reset
+      after each run) every file closed holds exactly one row for each key
+      written to it: the rows are strictly increasing, every key written is
+      represented, and every row is one of the rows written to that file --
+      whatever the run size and whatever the writer wrote before (previous files
+      closed, or abandoned by Reset). *)
+  Theorem C10_sorting_writer_dedupe_one_per_key :
+    forall sortf merge (maxrows : nat) (ops : list (swop A)),
+    1 <= maxrows -> sort_contract A cmp sortf -> merge_contract A cmp merge ->
+    Forall2 (fun out w =>
+               StronglySorted (fun a b => (cmp a b < 0)%Z) out /\
+               (forall a, In a w -> exists b, In b out /\ cmp a b = 0%Z) /\
+               (forall b, In b out -> In b w))
+            (sw_run A cmp sortf merge maxrows true false ops) (sw_written A [] ops).
+  Proof.
+    intros sortf merge maxrows ops Hm Hs Hg.
+    exact (sorting_writer_dedupe_one_per_key A cmp cmp_opp cmp_trans sortf merge maxrows Hm Hs Hg ops).
+  Qed.
+
+  (** ... hence independent of the run size, of the sort and merge routines and
+      of the history: files written with the same keys carry equal keys at
+      equal positions. *)
+  Theorem C10_sorting_writer_dedupe_independent :
+    forall sortf1 merge1 maxrows1 ops1 sortf2 merge2 maxrows2 ops2,
+    1 <= maxrows1 -> sort_contract A cmp sortf1 -> merge_contract A cmp merge1 ->
+    1 <= maxrows2 -> sort_contract A cmp sortf2 -> merge_contract A cmp merge2 ->
+    Forall2 (same_keys cmp) (sw_written A [] ops1) (sw_written A [] ops2) ->
+    Forall2 (Forall2 (fun a b => cmp a b = 0%Z))
+            (sw_run A cmp sortf1 merge1 maxrows1 true false ops1)
+            (sw_run A cmp sortf2 merge2 maxrows2 true false ops2).
+  Proof. exact (sorting_writer_dedupe_independent A cmp cmp_opp cmp_trans). Qed.
+
+  (** The contracts hold of what the Go code runs.  sort.Sort acts on the
+      RowBuffer through Less (compare < 0) and Swap: under the same exchange
+      level contract as for the buffers its result is a sorted permutation. *)
+  Theorem C10_writer_sort_contract : forall sort_swaps : list A -> list (nat * nat),
+    (forall l, rb_swo A cmp l ->
+       forall i, S i < length l -> rb_less A cmp (rb_swaps A l (sort_swaps l)) (S i) i = false) ->
+    sort_contract A cmp (fun l => rb_swaps A l (sort_swaps l)).
+  Proof. exact (rb_sort_contract A cmp cmp_opp cmp_trans). Qed.
+
+  Theorem C10_writer_rowbuffer_less_swo : forall l, rb_swo A cmp l.
+  Proof. exact (rb_less_swo A cmp cmp_opp cmp_trans). Qed.
+
+  (** The merged reader of merge.go over any number of row groups, any
+      chunking of the sources, read with slices of b >= 1 rows to io.EOF. *)
+  Theorem C10_writer_merge_contract : forall chunks b, 1 <= b ->
+    merge_contract A cmp (mergek_all cmp chunks b).
+  Proof. intros chunks b Hb. exact (mergek_all_contract A cmp chunks b cmp_opp cmp_trans Hb). Qed.
+
+  (* the sort and the merge the oracle runs *)
+  Theorem C10_writer_model_contracts :
+    sort_contract A cmp (isort A cmp) /\ merge_contract A cmp (Merge.Model.ref_merge_all cmp).
+  Proof. split; [exact (isort_contract A cmp cmp_opp cmp_trans)|exact (ref_merge_contract A cmp cmp_opp cmp_trans)]. Qed.
+End C10_writer.
+
+Print Assumptions C10_sorting_writer_sorted_permutation.
+Print Assumptions C10_sorting_writer_runs_keep_order.
+Print Assumptions C10_sorting_writer_dedupe_one_per_key.
+Print Assumptions C10_sorting_writer_dedupe_independent.
+Print Assumptions C10_writer_sort_contract.
+Print Assumptions C10_writer_rowbuffer_less_swo.
+Print Assumptions C10_writer_merge_contract.
+Print Assumptions C10_writer_model_contracts.
+
+(** The model the oracle runs ([sw_model]: rows of INT64 / BYTE_ARRAY cells
+    with the index of their arrival, the comparator of the sorting columns,
+    insertion sort, reference merge): no hypothesis left. *)
+Theorem C10_sval_sorting_writer_sorted_permutation : forall sorting maxrows keep_last ops,
+  1 <= maxrows ->
+  Forall2 (fun out w => StronglySorted (fun a b => (cmpW sorting a b <= 0)%Z) out /\ Permutation out w)
+          (sw_model sorting maxrows false keep_last ops) (sw_written witem [] ops).
+Proof. exact sw_model_sorted_permutation. Qed.
+
+Theorem C10_sval_sorting_writer_dedupe_one_per_key : forall sorting maxrows ops,
+  1 <= maxrows ->
+  Forall2 (fun out w =>
+             StronglySorted (fun a b => (cmpW sorting a b < 0)%Z) out /\
+             (forall a, In a w -> exists b, In b out /\ cmpW sorting a b = 0%Z) /\
+             (forall b, In b out -> In b w))
+          (sw_model sorting maxrows true false ops) (sw_written witem [] ops).
+Proof. exact sw_model_dedupe_one_per_key. Qed.
+
+(* its comparator is the row comparator of compare.go (the model of
+   Schema.Comparator above) on rows whose required sorting cells hold values,
+   and a total preorder on all rows *)
+Theorem C10_sval_writer_comparator : forall schema sorting (a b : witem),
+  row_wf sval schema sorting (snd a) -> row_wf sval schema sorting (snd b) ->
+  cmpW sorting a b = compare_rows sval cmp_sval schema sorting (snd a) (snd b).
+Proof. exact cmpW_is_comparator. Qed.
+
+Theorem C10_sval_writer_comparator_total_preorder : forall sorting,
+  (forall a b, (cmpW sorting a b < 0 <-> cmpW sorting b a > 0)%Z) /\
+  (forall a b d, (cmpW sorting a b <= 0 -> cmpW sorting b d <= 0 -> cmpW sorting a d <= 0)%Z).
+Proof. intros sorting. split; [exact (cmpW_opp sorting)|exact (cmpW_trans sorting)]. Qed.
+
+Print Assumptions C10_sval_sorting_writer_sorted_permutation.
+Print Assumptions C10_sval_sorting_writer_dedupe_one_per_key.
+Print Assumptions C10_sval_writer_comparator.
+Print Assumptions C10_sval_writer_comparator_total_preorder.
+
+(** Non-vacuity: one writer, sort runs of 4 rows, two files.  First file: keys
+    5 3 7 3 1 7 9 2; second file (after Close and Reset): 12 9 10 | Flush | 12
+    11 10 -- its smallest key, 9, is the greatest key of the last run of the
+    first file.  Rows are (index of arrival, key). *)
+Definition wi (id : nat) (k : Z) : witem := (id, [(Some (VI k), 0%N)]).
+Definition ex_w_sorting : list sortcol := [mkSortcol 0 false false].
+Definition ex_w_ops : list (swop witem) :=
+  [SWWrite [wi 0 5; wi 1 3; wi 2 7; wi 3 3; wi 4 1; wi 5 7; wi 6 9; wi 7 2]; SWClose; SWReset;
+   SWWrite [wi 8 12; wi 9 9; wi 10 10]; SWFlush; SWWrite [wi 11 12; wi 12 11; wi 13 10]; SWClose].
+
+Example C10_ex_sorting_writer :
+  c10_sw ex_w_sorting 4 false false ex_w_ops = [[4; 7; 1; 3; 0; 2; 5; 6]; [9; 10; 13; 12; 8; 11]] /\
+  c10_sw ex_w_sorting 4 true false ex_w_ops = [[4; 7; 1; 0; 2; 6]; [9; 10; 12; 8]] /\
+  c10_sw ex_w_sorting 1 true false ex_w_ops = [[4; 7; 1; 0; 2; 6]; [9; 10; 12; 8]] /\
+  c10_sw ex_w_sorting 100 true false ex_w_ops = [[4; 7; 1; 0; 2; 6]; [9; 10; 12; 8]] /\
+  map (map (@fst nat (row sval))) (sw_written witem [] ex_w_ops) =
+    [[0; 1; 2; 3; 4; 5; 6; 7]; [8; 9; 10; 11; 12; 13]].
+Proof. vm_compute. repeat split; reflexivity. Qed.
+
+(** Without "defer w.dedupe.reset()" in sortAndWriteBufferedRows ([keep_last] =
+    true: the last key kept by the deduplication of a run survives into the
+    next run, also across Close and Reset) the statement of
+    C10_sorting_writer_dedupe_one_per_key fails for the faithful model of that
+    code: the row with key 9 of the second file is dropped as a duplicate of
+    the last row of the first file, and no row with its key remains. *)
+Theorem C10_sorting_writer_no_reset_refuted :
+  let outs := sw_model ex_w_sorting 4 true true ex_w_ops in
+  map (map fst) outs = [[4; 7; 1; 0; 2; 6]; [10; 12; 8]] /\
+  ~ Forall2 (fun out w => forall a, In a w -> exists b, In b out /\ cmpW ex_w_sorting a b = 0%Z)
+            outs (sw_written witem [] ex_w_ops).
+Proof.
+  split; [vm_compute; reflexivity|].
+  intros H. vm_compute in H.
+  inversion H as [|? ? ? ? _ H2]; subst. inversion H2 as [|? ? ? ? H3 _]; subst.
+  destruct (H3 (wi 9 9)) as [b [Hb Eb]]; [right; left; reflexivity|].
+  destruct Hb as [<-|[<-|[<-|[]]]]; vm_compute in Eb; discriminate.
+Qed.
+
+Print Assumptions C10_sorting_writer_no_reset_refuted.
